@@ -185,7 +185,7 @@ def literal(scanner: Scanner):
 
             # Skip escape character, if any
             scanner.eat(Chars.Backslash)
-            scanner.pos += 1
+            scanner.next()
 
         # Do not throw if string is incomplete
         return True
